@@ -11,4 +11,4 @@ for p in "$@"; do
   grep -E "^VIOLATION|^property|^UNDECIDED|^BROKEN|LOAD ERROR" /tmp/try_seed.out | cut -c1-400
   echo "exit($p)=$rc"
 done
-git -C /repo checkout -- .
+git -C /repo apply -R "$d/patch.diff"
